@@ -123,6 +123,13 @@ PURE_EXTERNAL = {
     "copy.copy": lambda x: x.copy() if hasattr(x, "copy") else x,
     "unicodedata.category": unicodedata.category,
     "json.loads": lambda s_, *a, **k: __import__("json").loads(s_),
+    "itertools.chain": lambda *its: __import__("itertools").chain(*its),
+    "itertools.chain.from_iterable": lambda it: __import__("itertools").chain.from_iterable(it),
+    "itertools.islice": lambda *a: __import__("itertools").islice(*a),
+    "itertools.repeat": lambda *a: __import__("itertools").repeat(*a),
+    "itertools.product": lambda *a, **k: __import__("itertools").product(*a, **k),
+    "itertools.count": lambda *a: __import__("itertools").count(*a),
+    "itertools.zip_longest": lambda *a, **k: __import__("itertools").zip_longest(*a, **k),
     "xml.etree.ElementTree.fromstring": lambda s_, *a, **k: __import__("xml.etree.ElementTree").etree.ElementTree.fromstring(s_),
     "time.perf_counter": lambda: 0.0, "time.monotonic": lambda: 0.0, "time.time": lambda: 0.0, "time.process_time": lambda: 0.0,
     "fnmatch.filter": lambda names, pat: __import__("fnmatch").filter(list(names), pat),
@@ -501,6 +508,18 @@ class PureInterp:
             env[t.id] = v
         elif isinstance(t, (ast.Tuple, ast.List)):
             vals = list(self._iterable(v))
+            stars = [i for i, e in enumerate(t.elts) if isinstance(e, ast.Starred)]
+            if len(stars) == 1:
+                i = stars[0]
+                after = len(t.elts) - i - 1
+                if len(vals) < len(t.elts) - 1:
+                    raise Raised("ValueError", "not enough values to unpack")
+                for tt, vv in zip(t.elts[:i], vals[:i]):
+                    self.assign(tt, vv, env, module, depth)
+                self.assign(t.elts[i].value, list(vals[i:len(vals) - after]), env, module, depth)
+                for tt, vv in zip(t.elts[i + 1:], vals[len(vals) - after:]):
+                    self.assign(tt, vv, env, module, depth)
+                return
             if len(vals) != len(t.elts):
                 raise Raised("ValueError", "unpack")
             for tt, vv in zip(t.elts, vals):
@@ -523,6 +542,22 @@ class PureInterp:
                 raise Unsupported("attribute store")
         else:
             raise Unsupported("assignment target")
+
+    def _namedtuple_type(self, cls):
+        """class X(NamedTuple): a real namedtuple type with the declared fields and defaults."""
+        cache = self.__dict__.setdefault("_nt_types", {})
+        if id(cls) not in cache:
+            typ = None
+            if any((self.index.canon(b, cls.module) or "").endswith("NamedTuple") for b in getattr(cls, "base_exprs", [])):
+                import collections as _c
+                names = [f[0] for f in cls.fields if f[1] is not None]
+                defaults = []
+                for f in cls.fields:
+                    if f[1] is not None and f[2] is not None:
+                        defaults.append(self.eval(f[2], {}, cls.module))
+                typ = _c.namedtuple(cls.name, names, defaults=defaults or None)
+            cache[id(cls)] = typ
+        return cache[id(cls)]
 
     def _class_attr(self, cls, name):
         """A plain class-level attribute (constant table, not an attrs/dataclass field declaration), looked up along repo base classes."""
@@ -751,6 +786,10 @@ class PureInterp:
             return o.maps
         if ("getattr:" + n.attr) in self.hooks:
             return self.hooks["getattr:" + n.attr](o)
+        if isinstance(o, tuple) and hasattr(o, "_fields") and n.attr in o._fields:
+            return getattr(o, n.attr)
+        if isinstance(o, tuple) and hasattr(o, "_fields") and n.attr in ("_replace", "_asdict", "_fields"):
+            return getattr(o, n.attr)
         if type(o).__name__ in ("Element", "Match") and type(o).__module__ in ("xml.etree.ElementTree", "re") and not callable(getattr(o, n.attr, None)) and hasattr(o, n.attr):
             return getattr(o, n.attr)
         return ("method", o, n.attr)
@@ -1061,8 +1100,8 @@ class PureInterp:
                     return (lambda o, keys=tuple(args): o[keys[0]] if len(keys) == 1 else tuple(o[k] for k in keys))
                 raise Unsupported("operator.methodcaller")
             if name == "collections.namedtuple":
-                fields = args[1].replace(",", " ").split() if isinstance(args[1], str) else list(args[1])
-                return ("ntclass", args[0], tuple(fields))
+                import collections as _c
+                return _c.namedtuple(*args, **kwargs)   # a real tuple type: comparison, unpacking and field access behave as in the program
             if name == "contextlib.ExitStack":
                 return self._exitstack(depth)
             if name == "functools.partial":
@@ -1085,6 +1124,12 @@ class PureInterp:
         if isinstance(f, ClassInfo):
             if "construct" in self.hooks:
                 return self.hooks["construct"](f, args, kwargs)
+            nt = self._namedtuple_type(f)
+            if nt is not None:
+                try:
+                    return nt(*args, **kwargs)
+                except TypeError as exc:
+                    raise Raised("TypeError", str(exc))
             o = Obj(f.name, _args=tuple(args), _kwargs=dict(kwargs), **{"__class__": f})
             init = self.index.method(f, "__init__")
             if init is not None:
